@@ -86,7 +86,7 @@ class C05(Property):
     min_nontrivial = 10
 
     def _plan(self, ctx: Ctx):
-        n, k = (300, 8) if ctx.tier == "thorough" else (45, 3)
+        n, k = (250, 8) if ctx.tier == "thorough" else (45, 3)
         if ctx.mode == "search":
             n, k = n, 16
         return n, k
@@ -100,8 +100,12 @@ class C05(Property):
             if ctx.out_of_time():
                 ctx.extra["incomplete"] = True
                 break
+            if i < len(wfgen.CORPUS):
+                spec = json.loads(json.dumps(wfgen.CORPUS[i]))
+                ctx.corpus_replayed += 1
             feats = {"exec": 7, "scatter": 5} if rng.random() < 0.45 else ({"cart": 4, "gather": 6} if rng.random() < 0.25 else ({"loop": 3} if rng.random() < 0.25 else None))
-            spec = wfgen.gen_spec(rng, size=rng.randint(2, 12), features=feats)
+            if i >= len(wfgen.CORPUS):
+                spec = wfgen.gen_spec(rng, size=rng.randint(2, 12), features=feats)
             seeds = [rng.randrange(1 << 30) for _ in range(k)]
             runs = wfcheck.run_schedules(spec, seeds, ctx.scratch, timeout=30.0)
             den = wfgen.py_den(spec)
